@@ -983,17 +983,24 @@ static int write_char(void *context, cif_value_tp *char_value, int allow_text) {
                     break;
                 case 2: /* text field */
                     assert(analysis.delim[0] == UCHAR_NL);
-                    /* XXX: should really flag more specifically for whether prefixing is enabled */
-                    if (!allow_text || (analysis.contains_text_delim && IS_CIF1(context))) {
-                        result = CIF_DISALLOWED_VALUE;
-                    } else {
-                        /* write as a text block, possibly with line-folding and/or prefixing  */
-                        result = write_text(context, text, analysis.length,
-                                ((analysis.length_first >= LINE_LENGTH(context))
-                                        || (analysis.length_max > LINE_LENGTH(context))
-                                        || analysis.has_reserved_start
-                                        || (analysis.max_semi_run >= (LINE_LENGTH(context) - 1))),
-                                analysis.contains_text_delim);
+                    {
+                        int fold = ((analysis.length_first >= LINE_LENGTH(context))
+                                || (analysis.length_max > LINE_LENGTH(context))
+                                || analysis.has_reserved_start
+                                || (analysis.max_semi_run >= (LINE_LENGTH(context) - 1)));
+                        /*
+                         * The content of a folded text field starts on a new line, where a leading semicolon would
+                         * terminate the field; it needs a prefix as much as a semicolon after an embedded newline does.
+                         */
+                        int prefix = (analysis.contains_text_delim || (fold && (text[0] == UCHAR_SEMI)));
+
+                        /* XXX: should really flag more specifically for whether prefixing is enabled */
+                        if (!allow_text || (prefix && IS_CIF1(context))) {
+                            result = CIF_DISALLOWED_VALUE;
+                        } else {
+                            /* write as a text block, possibly with line-folding and/or prefixing  */
+                            result = write_text(context, text, analysis.length, fold, prefix);
+                        }
                     }
                     break;
                 default: /* unexpected value */
